@@ -118,6 +118,9 @@ func checkC03(c *hx.Checker) {
 				addCase(op, binaryFill(main, sa, 0), binaryFill(main, sb, 5), "op", !ref.ShapeEq(sa, sb))
 			}
 		}
+		for _, lp := range [][2][]int{{{8, 1, 6, 1}, {7, 1, 5}}, {{33}, {4, 1}}, {{2, 3, 4, 5}, {5}}, {{1, 64}, {64, 1}}} {
+			addCase(op, binaryFill(main, lp[0], 1), binaryFill(main, lp[1], 4), "op", true, "large")
+		}
 		for _, dt := range gateDTs(op, 0) {
 			for _, sa := range sub {
 				for _, sb := range sub {
